@@ -20,7 +20,7 @@ import warnings
 from pathlib import Path
 
 VERIF = Path(__file__).resolve().parent.parent
-LEAN = VERIF / "lean"
+LEAN = Path(os.environ.get("VERIF_LEAN_DIR", VERIF / "lean"))   # model-mutant self-tests point this at a scratch copy
 REPO = Path(os.environ.get("QUANSINO_REPO", "/repo"))
 EVIDENCE = Path(os.environ.get("VERIF_EVIDENCE_DIR", VERIF / "evidence"))   # seeded-change runs write elsewhere
 REPLAYS = Path(os.environ.get("VERIF_REPLAY_DIR", VERIF / "replays"))
